@@ -26,7 +26,9 @@ pub fn generate(
 
         let items = gen_inherent_impl_items(&items);
         if let syn::Type::Path(type_path) = &mut *self_ty {
-            type_path.path.segments.last_mut().unwrap().arguments = syn::PathArguments::None;
+            // NOTE: Helper trait is named after the type, whatever path leads to it (`self::Wrapper<T>`)
+            let ident = type_path.path.segments.last().unwrap().ident.clone();
+            *self_ty = syn::parse_quote!(#ident);
         }
 
         remove_param_bounds(&mut generics);
